@@ -2814,6 +2814,9 @@ FINDINGS = [
     {"status": "fixed", "key": "rewrite_goal:expansion-is-bare-premise", "commit": "fixes/C04-13-expand-bare-premise.patch", "what": "as above"},
     {"status": "fixed", "key": "rewrite_goal_with_prev:expansion-is-bare-premise", "commit": "fixes/C04-13-expand-bare-premise.patch", "what": "as above"},
     {"status": "fixed", "key": "rewrite_goal_with_prev_sym:expansion-is-bare-premise", "commit": "fixes/C04-13-expand-bare-premise.patch", "what": "as above"},
+    {"status": "fixed", "key": "rewrite_goal:conclusion-differs:head", "commit": "fixes/C04-14-equal_elim-reflexive.patch",
+     "what": "rewrite_goal ('if_P', P) prevs=[|- false] (the theorem does not rewrite the goal): eval reports |- P, the proof term is the premise "
+             "|- false (ProofTerm.equal_elim skipped a reflexive equation without comparing statements); visible once C04-13 lets such a proof term be exported"},
     {"status": "fixed", "key": "verit_or:expansion-never-produced", "commit": "6f6fccd",
      "what": "verit_or args=(a, false) prevs=[|- a | false]: eval reports |- a | false but get_proof_term returns the cited premise itself, which "
              "ProofTerm.export refuses (export: atom): no expansion on any input on which eval succeeds"},
